@@ -235,6 +235,9 @@ type c08Fault struct {
 	readA   bool // A is loaded by a plain SELECT before the error
 	readT   bool // T is loaded by a plain SELECT (CREATE TABLE ... AS SELECT ... FROM T)
 	create  bool // CREATE TABLE: target is the new file f2
+	// the statement's target f2 was created (and filled) earlier in this transaction: the failing CREATE TABLE
+	// must leave that uncommitted file, its rows and its handler alone
+	createdHere bool
 }
 
 func valuesRows(n, K int, bad string) string {
@@ -351,6 +354,9 @@ var c08Faults = []c08Fault{
 	{stmt: "CREATE TABLE", fail: "file-exists", create: true, sql: func(T, A string, K, n int) string {
 		return fmt.Sprintf("CREATE TABLE %s (a, b)", fileSQL(0))
 	}},
+	{stmt: "CREATE TABLE", fail: "file-exists-created-in-this-transaction", create: true, createdHere: true, sql: func(T, A string, K, n int) string {
+		return fmt.Sprintf("CREATE TABLE %s (x)", fileSQL(2))
+	}},
 	{stmt: "CREATE TABLE", fail: "unknown-source-table", create: true, sql: func(T, A string, K, n int) string {
 		return fmt.Sprintf("CREATE TABLE %s AS SELECT * FROM nosuch", fileSQL(2))
 	}},
@@ -425,7 +431,7 @@ type c08Plan struct {
 func runC08(seed int64, tier string, out string) {
 	rnd := rand.New(rand.NewSource(seed))
 	meta := newMeta("C08", seed)
-	meta.Rule = "fault matrix: statement kind (UPDATE / INSERT VALUES / INSERT SELECT / DELETE / REPLACE / CREATE TABLE / ALTER ADD / DROP / RENAME) x failure kind (division by zero in a SET / VALUES / WHERE / DEFAULT / source row, wrong row length in the K-th VALUES row, unknown field, ambiguous update, failing sub-query, duplicate column, key not set, file exists, cancellation) x position K of the failing row (first / middle / last; every row in the thorough tier for tables up to 8 rows) x table kind (file / temporary) x state before (not loaded / loaded by SELECT / changed, uncommitted / changed, committed / altered). One interactive Transaction per case; after every step every visible table is read. Distinct = distinct (statement, failure, K, n, table kind, state before) tuples whose statement really returned an error."
+	meta.Rule = "fault matrix: statement kind (UPDATE / INSERT VALUES / INSERT SELECT / DELETE / REPLACE / CREATE TABLE / ALTER ADD / DROP / RENAME) x failure kind (division by zero in a SET / VALUES / WHERE / DEFAULT / source row, wrong row length in the K-th VALUES row, unknown field, ambiguous update, failing sub-query, duplicate column, key not set, file exists, cancellation) x position K of the failing row (first / middle / last; every row in the thorough tier for tables up to 8 rows) x table kind (file / temporary) x state before (not loaded / loaded by SELECT / changed, uncommitted / changed, committed / altered; all five for failures that do not depend on a row; CREATE TABLE also of a file created earlier in the same transaction). One interactive Transaction per case; after every step every visible table is read. Distinct = distinct (statement, failure, K, n, table kind, state before) tuples whose statement really returned an error."
 	w := &txnShard{dir: out, prop: "C08", max: 150, meta: meta, caseType: "c08case", checkFn: "check_c08",
 		header: fmt.Sprintf(txnShardHeader, "Csvq.Harness.H08")}
 
@@ -455,7 +461,7 @@ func runC08(seed int64, tier string, out string) {
 			}
 			for _, nk := range nks {
 				pres := c08Pre
-				if tier != "thorough" {
+				if tier != "thorough" && f.rowDep {
 					// two of the states per point, rotating, so that every (fault, state) pair occurs
 					pres = []string{c08Pre[ci%len(c08Pre)], c08Pre[(ci+2)%len(c08Pre)]}
 				}
@@ -526,6 +532,10 @@ func runC08(seed int64, tier string, out string) {
 				meta.Distribution["skipped:needs-3-columns"]++
 				_ = s.finish(false)
 				return
+			}
+			if p.f.createdHere {
+				r.do(ctx, fmt.Sprintf("CREATE TABLE %s (a, b)", fileSQL(2)), effect{kind: "create", file: 2, temp: -1})
+				r.do(ctx, fmt.Sprintf("INSERT INTO %s VALUES (1, 2), (3, 4)", fileSQL(2)), effect{kind: "change", file: 2, temp: -1})
 			}
 			r.observe("before")
 
